@@ -34,7 +34,7 @@ Here is a semantic property the library is supposed to have:
 Your task: make ONE realistic change to the library's non-test Go source in {wt} that BREAKS this property, while
   (a) the package still compiles (`cd {wt} && go build ./... && go vet ./...`, also with `-tags verif`), and
   (b) the existing test suite still passes unedited (`cd {wt} && go test -count=1 ./...`).
-The change must look like something a maintainer could plausibly commit (an off-by-one, a dropped or inverted guard, a wrong operator or constant, a forgotten conversion, a reordered pair of statements, a stale value used after a lock, a missing case, an aliasing slip such as re-using a backing array, a cache, a fast path, a "hardening" bound, ...), NOT sabotage that ordinary use would expose at once. Earlier attempts by other engineers (all of these are known and are caught by the project's checks; do not repeat them or close variants; excerpts of their write-ups): {earlier} . The checks that guard this property are strong on randomly generated trees/histories with random options, on aliasing of caller-owned memory, on repeated calls, on lock misuse, on second handles, on unusual Go values (deep pointer chains, complex numbers, same-named types, huge capacities, shared instances); look for something they would plausibly NOT exercise. Do something clearly different - a different function and a different clause of the property - and make it HARD to hit: it should need a multi-step sequence of operations, an unusual option combination, a particular interleaving, a particular value, or two cooperating sites that each look fine alone. Do not touch files named verif_*.go and do not edit *_test.go files.
+The change must look like something a maintainer could plausibly commit (an off-by-one, a dropped or inverted guard, a wrong operator or constant, a forgotten conversion, a reordered pair of statements, a stale value used after a lock, a missing case, an aliasing slip such as re-using a backing array, a cache, a fast path, a "hardening" bound, ...), NOT sabotage that ordinary use would expose at once. Earlier attempts by other engineers (all of these are known and are caught by the project's checks; do not repeat them or close variants; excerpts of their write-ups): {earlier} . The checks that guard this property are strong on randomly generated trees/histories with random options, on aliasing of caller-owned memory, on repeated calls, on lock misuse, on second handles, on unusual Go values (deep pointer chains, complex numbers, same-named types, huge capacities, shared instances, negative and extreme ints, backslashes, pre-quoted texts), on large sizes (thousands of elements, hundreds of nesting levels, long strings, long nil runs), on deprecated method spellings and package-level defaults, on closures that change their own slot; look for something they would plausibly NOT exercise. Do something clearly different - a different function and a different clause of the property - and make it HARD to hit: it should need a multi-step sequence of operations, an unusual option combination, a particular interleaving, a particular value, or two cooperating sites that each look fine alone. Do not touch files named verif_*.go and do not edit *_test.go files.
 
 Also write a demonstration: a new Go test file {wt}/seeded_demo_test.go (package stackage) containing a test named TestSeededDemo that FAILS with your change and PASSES on the original code. Verify both: run it with your change applied (must fail), then `git diff > {wt}.patch && git checkout -- <changed files>`, run it again on the original code (must pass), then re-apply your change with `git apply {wt}.patch`.
 
